@@ -191,10 +191,17 @@ def gen_cli(rng, n, tier):
         [],
         ["-ah", "Size=" + PROBE, "-ah", "probe=" + PROBE, "-a", "Name=x%Count()", "-a", "Mine=%Upper(){a}"],
         ["-a", "Size=%Name()", "-a", "Upper=u", "-ah", "Upper=" + PROBE],
+        # aliases that refer to each other against the registration (= alphabetical) order
+        ["-a", "Alpha=<%Zulu()>", "-a", "Zulu=const", "-a", "Mid=%Alpha()%Zulu()"],
     ]
+    # names the template language cannot spell must not be accepted (and then listed) as tag names
+    odd = [["-a", "Gr\u00f6\u00dfe=x"], ["-ah", "\u0394t=" + PROBE], ["-a", "\u540d\u524d=x", "-a", "Ok=y"]]
     cases = []
-    for extra in flavours:
+    for extra in flavours + odd:
         pairs, rc = _list_tags(extra)
+        if extra in flavours and extra and rc != 0:
+            cases.append({"extra": extra, "cat": "Alias", "tag": "<registry>", "holders": None, "list_rc": rc})
+            continue
         names = {}
         for c, t in pairs:
             names.setdefault(t, []).append(c)
@@ -213,6 +220,13 @@ def gen_cli(rng, n, tier):
 def impl_cli(case):
     out = {}
     c, t = case["cat"], case["tag"]
+    if "list_rc" in case:
+        return {"list_rc": case["list_rc"]}
+    if c.lower() in ("alias", "adhoc") and case["holders"] is not None:
+        # a listed alias / ad-hoc tag can be written in a template
+        with common.Sandbox({"in": None, "in/f.txt": "x"}) as root:
+            o, e, rc = common.run_cli(case["extra"] + ["--dry-run", "--", f"%{c}.{t}()_%Core.Name()", str(root / "in")])
+            out["use"] = [rc, e.strip()[-200:] if rc else ""]
     spellings = {"listed": c, "lower": c.lower(), "upper": c.upper(), "swap": c.swapcase()}
     for key, spelled in spellings.items():
         o, e, rc = common.run_cli(case["extra"] + ["--help", f"{spelled}.{t}"])
@@ -224,6 +238,10 @@ def impl_cli(case):
 
 def oracle_cli(case, obs):
     t = case["tag"]
+    if "list_rc" in obs:
+        return f"a valid set of aliases/ad-hoc tags {case['extra']} makes --list-tags end with status {obs['list_rc']}"
+    if "use" in obs and obs["use"][0] == 3:
+        return f"listed tag {case['cat']}.{t} cannot be written in a template: {obs['use'][1]}"
     if case["holders"] is None:
         for key in ("listed", "lower", "upper", "swap"):
             if obs[key][0] == 0:
